@@ -70,6 +70,15 @@ func c11Member(r *core.Rand, kind int) (p rtcp.Packet, cname string) {
 				items = append(items, rtcp.SourceDescriptionItem{Type: rtcp.SDESType(r.Pick(0, 1, 2, 8, 255)), Text: "after"})
 			}
 			s.Chunks = []rtcp.SourceDescriptionChunk{{Source: r.U32(), Items: items}}
+			// and further chunks whose CNAME is their first item (the first CNAME item of the packet
+			// is still the one above)
+			for n := r.Intn(3); n > 0; n-- {
+				lt := "later-chunk-" + gen.Text(r)
+				if len(lt) > 255 {
+					lt = lt[:255]
+				}
+				s.Chunks = append(s.Chunks, rtcp.SourceDescriptionChunk{Source: r.U32(), Items: []rtcp.SourceDescriptionItem{{Type: rtcp.SDESCNAME, Text: lt}}})
+			}
 		} else {
 			// later chunk
 			s.Chunks = []rtcp.SourceDescriptionChunk{{Source: r.U32()}, {Source: r.U32(), Items: []rtcp.SourceDescriptionItem{{Type: rtcp.SDESEmail, Text: "e"}}}, {Source: r.U32(), Items: []rtcp.SourceDescriptionItem{{Type: rtcp.SDESCNAME, Text: t}, {Type: rtcp.SDESCNAME, Text: "later"}}}}
